@@ -1,10 +1,17 @@
 -- REGENERATED from /repo by tools/extract on every run. Do not edit.
 namespace CaddyModel.Gen
 
-/-- what CA.Provision (modules/caddypki/ca.go) assigns to `ca.storage`, in source order -/
-def caStorageAssigns : List String := ["cmStorage", "ctx.Storage()"]
+/-- CA.Provision (modules/caddypki/ca.go): `<enclosing if conditions> => <value>` of every assignment to the CA's storage field -/
+def caStorageAssigns : List String := ["ca.StorageRaw!=nil => cmStorage", "ca.storage==nil => ctx.Storage()"]
 
-/-- every storage operation of package caddypki (non-test files): file:operation:receiver -/
-def caStorageOps : List String := ["ca.go:Load:ca.storage", "ca.go:Load:ca.storage", "ca.go:Store:ca.storage", "ca.go:Store:ca.storage", "ca.go:Load:ca.storage", "ca.go:Load:ca.storage", "ca.go:Store:ca.storage", "ca.go:Store:ca.storage"]
+/-- storage operations of package caddypki whose receiver does NOT resolve (data flow) to the CA's storage field -/
+def caStorageOpsElsewhere : Nat := 0
+
+/-- the kinds of storage operation performed on the CA's storage field -/
+def caStorageOpKinds : List String := ["Load", "Store"]
+
+/-- `.Storage()` calls in the package (a context asked for its storage) and mentions of caddy.DefaultStorage / certmagic.Default -/
+def caContextStorageCalls : Nat := 1
+def caDefaultStorageMentions : Nat := 0
 
 end CaddyModel.Gen
